@@ -38,10 +38,16 @@ def run(ctx):
                 'observation functions, all four quarter turns of the world; non-trivial = a non-identity turn whose observation shows an object')
     n = 500 if ctx.tier == 'quick' else 5000
     metas, reqs = [], []
-    for _ in range(n):
-        cs = osuite.tagged_state(r, 1, 8)
-        name = r.choice(DET)
-        area = osuite.rand_area(r)
+    large = osuite.large_cases(r, 4 if ctx.tier == 'quick' else 30)
+    for it in range(n + len(large)):
+        if it < n:
+            cs = osuite.tagged_state(r, 1, 8)
+            name = r.choice(DET)
+            area = osuite.rand_area(r)
+        else:
+            area, cs = large[it - n]          # large worlds, large views: whatever the code does differently for big inputs
+            name = r.choice(['fully_transparent', 'raytracing'])
+            ctx.count('large world / view', f'{len(cs[0])}x{len(cs[0][0])}')
         kind, val, log, tape, obs, state = osuite.run_obs(name, area, cs)
         f = comp.build_obs({'name': name, 'area': area})
         for rot in ORIS:
